@@ -30,8 +30,31 @@ EXPR_SNIPPETS = [
     "barrier()", "(yield)", "abs('a')", "divmod(1)", "pow(1, 2, 3)", "float('1.5')", "int(1.5, 2)", "bool(qubit())",
     "g_undefined(1)", "(1)(2)", "(1, 2)(3)", "1 .real", "*[1, 2]", "(a := 1)", "(1, *(2, 3))", "nat(-1)", "nat(1.5)",
     "1 @ 2", "1 if (2, 3) else 4", "(1, 2) == (1, 2)", "'a' == 'a'", "None == None", "None is None", "True < False",
+    "array(x async for x in range(3))", "array(x for x in range(3) async for y in range(2))", "(x async for x in range(3))",
+    "(await 1)", "array(await x for x in range(2))",
     "1 < 2 < 'a'", "1 and 2", "0 or 'a'", "not None", "P(1, True) == P(1, True)", "P(1, True) < P(1, True)",
 ]
+
+# parametrised snippets: every «K» is replaced by a drawn small integer (-4..5), every «PAY» by a drawn
+# comptime payload - so that boundary positions (index == length, == -length - 1, ...) and payload
+# positions are searched rather than listed
+PARAM_SNIPPETS = [
+    "(1, 2, 3)[«K»]", "(1, True)[«K»]", "((1, 2), 3)[«K»][«K»]", "P(1, True).a + (1, 2)[«K»]", "array(1, 2, 3)[«K»]",
+    "comptime(«PAY», «PAY»)", "py(«PAY», «PAY»)", "comptime(«PAY», «PAY», «PAY»)", "comptime(«PAY»)", "py(«PAY»)",
+    "comptime((«PAY», «PAY»))", "comptime([«PAY», «PAY»])", "(«K»).__add__(«K»)", "1 << «K»", "2 ** «K»", "array(1, 2)[«K»:«K»]",
+    "range(«K», «K», «K»)", "nat(«K»)", "(1, 2, 3)[«K»] + (1, 2, 3)[«K»]", "divmod(«K», «K»)", "pow(2, «K»)",
+]
+PAYLOADS = ["1", "2 ** 70", "-(2 ** 63) - 1", "{1, 2}", "{1: 2}", "1 / 0", "undefined_pay", "'s'", "1.5", "True", "None",
+            "[1, 2]", "[1, 'a']", "(1, 2)", "object()", "[]", "lambda: 1", "2 ** 63", "[2 ** 64]", "(1, [2.5])"]
+
+
+def fill_params(draw, snippet):
+    while "«K»" in snippet:
+        snippet = snippet.replace("«K»", str(draw(st.integers(-4, 5))), 1)
+    while "«PAY»" in snippet:
+        snippet = snippet.replace("«PAY»", draw(st.sampled_from(PAYLOADS)), 1)
+    return snippet
+
 
 WRAPS = ["({e} if True else {e})", "({e} if {e} else {e})", "(w_ := {e})", "({e}, {e})[0]", "({e},)", "int({e})", "float({e})",
          "bool({e})", "comptime({e})", "(-{e})", "(not {e})", "({e} + 1)", "({e} and {e})", "({e} or True)", "{e}[0]", "{e}.a",
@@ -46,6 +69,9 @@ STMT_WRAPS = ["if True:\n    BODY", "if False:\n    BODY", "while False:\n    BO
               "try:\n    BODY\nfinally:\n    pass", "if qq_undefined:\n    BODY"]
 
 STMT_SNIPPETS = [
+    "_ @ functional\nfz_ = 1", "_ @ functional", "_ @ functional\nif True:\n    pass", "_ @ functional\nwhile False:\n    pass",
+    "_ @ undefined_pragma\nfz_ = 1", "fz_ @ functional",
+    "async for i_ in range(2):\n    pass", "async with dagger:\n    pass",
     "p_ = P(1, True)\na_, *p_.a = array(1, 2, 3)",
     "xs_ = array(array(1), array(2))\na_, *xs_[0] = array(1, 2)",
     "a_, *(b_, c_) = array(1, 2, 3)",
@@ -237,6 +263,11 @@ def apply_one(draw, tree):
             b[i], b[j] = b[j], b[i]
         elif kind == "insert_stmt":
             snippet = draw(st.sampled_from(STMT_SNIPPETS))
+            r_ = draw(st.integers(0, 5))
+            if r_ == 0:
+                snippet = "ps_ = " + fill_params(draw, draw(st.sampled_from(PARAM_SNIPPETS)))
+            elif r_ == 1:
+                snippet = "pa_: int = " + fill_params(draw, draw(st.sampled_from(PARAM_SNIPPETS)))
             for k, s_ in enumerate(_parse_stmts(snippet)):
                 b.insert(i + k, s_)
             return kind + ":" + snippet.split("\n")[0][:30]
@@ -324,6 +355,8 @@ def apply_one(draw, tree):
                             parents.append((p, fld, idx))
         tgt = pick(parents)
         snippet = draw(st.sampled_from(EXPR_SNIPPETS))
+        if draw(st.integers(0, 3)) == 0:
+            snippet = fill_params(draw, draw(st.sampled_from(PARAM_SNIPPETS)))
         if tgt is not None:
             p, fld, idx = tgt
             try:
